@@ -38,6 +38,20 @@ type InvCase struct {
 	Ctx   string            `json:"ctx"` // background | todo | cancellable | deadline-far | value
 	// Prior: the same Interpreter first ran once under a context that was cancelled afterwards (or expired)
 	Prior string `json:"prior,omitempty"` // "" | cancelled-after | expired-after
+	Procs bool   `json:"procs,omitempty"` // the program starts processes (NoExec off): one of procPrograms
+}
+
+// programs that start processes, including ones that end by a signal or with odd statuses: under a context that
+// is never cancelled they must behave exactly as under Execute (what system() and close() return, what is printed)
+var procPrograms = []string{
+	`BEGIN { r = system("kill -9 $$"); print "r", r; print "after" }`,
+	`BEGIN { r = system("kill -TERM $$"); print r; r = system("exit 3"); print r; r = system("true"); print r }`,
+	`BEGIN { "kill -9 $$" | getline x; r = close("kill -9 $$"); print "r", r, "[" x "]" }`,
+	`BEGIN { print "data" | "cat >/dev/null; kill -9 $$"; r = close("cat >/dev/null; kill -9 $$"); print "r", r }`,
+	`{ r = system("test " NR " -eq 2 && kill -INT $$; exit " NR); print NR, r } END { print "end", NR }`,
+	`BEGIN { while (("echo a; echo b; exit 7" | getline line) > 0) n++; print n, close("echo a; echo b; exit 7") }`,
+	`BEGIN { r = system("kill -9 $$"); print "r", r; r = system("sh -c 'kill -SEGV $$' 2>/dev/null"); print r; r = system("kill -USR1 $$"); print r }`,
+	`function f(c) { return system(c) } BEGIN { print f("kill -9 $$") + 1, f("exit 2") + 1 } END { print f("kill -HUP $$") }`,
 }
 
 func genInv(t *rapid.T) InvCase {
@@ -49,6 +63,11 @@ func genInv(t *rapid.T) InvCase {
 		c.Args = []string{"r0"}
 	}
 	c.Prior = rapid.SampledFrom([]string{"", "", "cancelled-after", "expired-after"}).Draw(t, "prior")
+	if rapid.IntRange(0, 11).Draw(t, "procs") == 0 {
+		c.Procs = true
+		c.Src = h.Str(rapid.SampledFrom(procPrograms).Draw(t, "proc"))
+		c.Args = nil
+	}
 	return c
 }
 
@@ -66,7 +85,7 @@ func execInv(prog *parser.Program, c InvCase, useCtx bool) res {
 		os.WriteFile(dir+"/"+name, []byte(content), 0o644)
 	}
 	var out bytes.Buffer
-	cfg := &interp.Config{Stdin: strings.NewReader(string(c.Stdin)), Output: &out, Error: &out, Argv0: "goawk", Args: c.Args, Environ: []string{"HOME", "/h", "N", "7"}, NoExec: true,
+	cfg := &interp.Config{Stdin: strings.NewReader(string(c.Stdin)), Output: &out, Error: &out, Argv0: "goawk", Args: c.Args, Environ: []string{"HOME", "/h", "N", "7", "PATH", "/usr/bin:/bin"}, NoExec: !c.Procs,
 		OpenFile: func(name string, flag int, perm os.FileMode) (*os.File, error) {
 			return os.OpenFile(dir+"/"+name, flag, perm)
 		}}
@@ -128,7 +147,7 @@ func runInv(x *h.Ctx, c InvCase) string {
 		return ""
 	}
 	// guard against runaway programs: the reference evaluator must finish within its budget
-	if tree, err := awk.FromGoawk(prog); err == nil {
+	if tree, err := awk.FromGoawk(prog); err == nil && !c.Procs {
 		if _, r := runner.Reference(tree, prog, string(c.Stdin), c.Args, nil, runner.Sandbox{Files: c.Files}, 100000); r.Exhausted {
 			x.Discard("reference budget exhausted")
 			return ""
@@ -142,6 +161,13 @@ func runInv(x *h.Ctx, c InvCase) string {
 	x.Class("ctx-" + c.Ctx)
 	if c.Prior != "" {
 		x.Class("after-dead-context-run")
+	}
+	if c.Procs {
+		if strings.Contains(a.out, "WaitDelay expired") || strings.Contains(b.out, "WaitDelay expired") {
+			x.Excluded("KF-C13-4")
+			return ""
+		}
+		x.Class("starts-processes")
 	}
 	if a.out != "" {
 		x.Nontrivial("")
